@@ -193,7 +193,8 @@ fn snap_reg(r: &scpi_contrib::scpi1999::EventRegister) -> RegSnap {
 
 impl World {
     pub fn new(cfg: &Config) -> Option<World> {
-        let dev = SimDevice::new(&cfg.queue)?;
+        let mut dev = SimDevice::new(&cfg.queue)?;
+        dev.plain_stb = cfg.plain488;
         Some(World {
             cfg: cfg.clone(),
             root: model_root(&cfg.tree),
@@ -209,7 +210,11 @@ impl World {
             cfg: self.cfg.clone(),
             root: self.root.clone(),
             tree: self.tree,
-            dev: SimDevice::new(&self.cfg.queue).unwrap(),
+            dev: {
+                let mut d = SimDevice::new(&self.cfg.queue).unwrap();
+                d.plain_stb = self.cfg.plain488;
+                d
+            },
             outq: vec![Vec::new(); self.cfg.controllers.max(1) as usize],
         }
     }
@@ -250,6 +255,7 @@ impl World {
             queue: q,
             tst_code: self.dev.tst_code,
             outq: self.outq.iter().map(|o| !o.is_empty()).collect(),
+            plain488: self.cfg.plain488,
         }
     }
 
@@ -399,8 +405,7 @@ impl World {
     }
 
     pub fn exec_hw(&mut self, op: &HwOp) {
-        let v = op.value;
-        self.dev.reg(op.reg).set_condition(v);
+        apply_hw(self.dev.reg(op.reg), op);
     }
 
     pub fn exec_tst(&mut self, code: i16) {
